@@ -106,8 +106,10 @@ static void script(void) {
     VASSERT(p_ini_file_is_parsed(ini) == TRUE, "parsed flag set");
   }
 
+  /* Every reader below is called a second time when the first call met an allocation failure: the object must then deliver what
+   * it delivers without the failure (the failed read left it unchanged and usable). */
+  int retried_ok = 0;
   /* ---- sections: per section a name copy (1) and a list node (2) */
-  f0 = vm_failed;
 #ifdef KF_OPEN_C18_ini_sections_node
   EXCLUDE_NTH(2);
 #  if NSEC > 1
@@ -117,17 +119,19 @@ static void script(void) {
 #ifdef KF_DEMO_C18_ini_sections_node
   DEMO_NTH(2);
 #endif
-  int nulls = 0;
-  PList *secs = p_ini_file_sections(ini);
-  int sfail = C18_FAILED_SINCE(f0);
-  int ns = free_strings(secs, "s", NSEC > 1 ? "t" : NULL, NULL, &nulls);
-  VASSERT(ns <= NSEC, "not more sections than in the file");
-  if (missing) VASSERT(ns == 0, "nothing listed for an unparsed object");
-  else if (!pfail && !sfail) VASSERT(ns == NSEC && nulls == 0, "all sections listed when no allocation failed");
-  if (!sfail) VASSERT(nulls == 0, "a NULL name is listed only when its copy could not be allocated");
+  for (int attempt = 0; attempt < 2; attempt++) {
+    f0 = vm_failed;
+    int nulls = 0;
+    PList *secs = p_ini_file_sections(ini);
+    int sfail = C18_FAILED_SINCE(f0);
+    int ns = free_strings(secs, "s", NSEC > 1 ? "t" : NULL, NULL, &nulls);
+    VASSERT(ns <= NSEC, "not more sections than in the file");
+    if (missing) VASSERT(ns == 0, "nothing listed for an unparsed object");
+    else if (!pfail && !sfail) VASSERT(ns == NSEC && nulls == 0, "all sections listed when no allocation failed (also when an earlier attempt failed)");
+    if (!sfail) { VASSERT(nulls == 0, "a NULL name is listed only when its copy could not be allocated"); if (attempt == 1) retried_ok = 1; break; }
+  }
 
   /* ---- keys of section s */
-  f0 = vm_failed;
 #ifdef KF_OPEN_C18_ini_keys_node
   EXCLUDE_NTH(2);
 #  if INIFILE != 1
@@ -137,52 +141,72 @@ static void script(void) {
 #ifdef KF_DEMO_C18_ini_keys_node
   DEMO_NTH(2);
 #endif
-  nulls = 0;
-  PList *keys = p_ini_file_keys(ini, "s");
-  int kfail = C18_FAILED_SINCE(f0);
-  /* file 2: when the copy of the "[t]" line cannot be allocated the line is skipped and key b lands in section s (accepted as degraded) */
-  int nk = free_strings(keys, "a", INIFILE == 1 ? NULL : "l", (INIFILE != 1 && pfail) ? "b" : NULL, &nulls);
-  VASSERT(nk <= (INIFILE == 1 ? 1 : (pfail ? 3 : 2)), "not more keys than in the section");
-  if (missing) VASSERT(nk == 0, "nothing listed for an unparsed object");
-  else if (!pfail && !kfail) VASSERT(nk == (INIFILE == 1 ? 1 : 2) && nulls == 0, "all keys listed when no allocation failed");
+  for (int attempt = 0; attempt < 2; attempt++) {
+    f0 = vm_failed;
+    int nulls = 0;
+    PList *keys = p_ini_file_keys(ini, "s");
+    int kfail = C18_FAILED_SINCE(f0);
+    /* file 2: when the copy of the "[t]" line cannot be allocated the line is skipped and key b lands in section s (accepted as degraded) */
+    int nk = free_strings(keys, "a", INIFILE == 1 ? NULL : "l", (INIFILE != 1 && pfail) ? "b" : NULL, &nulls);
+    VASSERT(nk <= (INIFILE == 1 ? 1 : (pfail ? 3 : 2)), "not more keys than in the section");
+    if (missing) VASSERT(nk == 0, "nothing listed for an unparsed object");
+    else if (!pfail && !kfail) VASSERT(nk == (INIFILE == 1 ? 1 : 2) && nulls == 0, "all keys listed when no allocation failed (also when an earlier attempt failed)");
+    if (!kfail) { if (attempt == 1) retried_ok = 1; break; }
+  }
 
   /* ---- typed getters */
   pboolean has_a = p_ini_file_is_key_exists(ini, "s", "a");
   if (missing) VASSERT(has_a == FALSE, "no key in an unparsed object");
   else if (!pfail) VASSERT(has_a == TRUE, "key present when the parse met no allocation failure");
-  f0 = vm_failed;
   int live0 = vm_live;
-  pchar *str = p_ini_file_parameter_string(ini, "s", "a", "dflt");
-  if (C18_FAILED_SINCE(f0)) VASSERT(str == NULL || c18_streq(str, "dflt"), "p_ini_file_parameter_string returns NULL or the default when a copy cannot be allocated");
-  else VASSERT(str != NULL && c18_streq(str, has_a ? "1" : "dflt"), "stored value, or the default for a key that was not stored");
-  p_free(str);
-  f0 = vm_failed; live0 = vm_live;
-  pint iv = p_ini_file_parameter_int(ini, "s", "a", 7);
-  VASSERT(iv == ((has_a && !C18_FAILED_SINCE(f0)) ? 1 : 7), "integer value, or the default when the key is missing or the lookup copy cannot be allocated");
-  VASSERT(vm_live == live0, "integer getter leaves nothing allocated");
-  f0 = vm_failed;
-  pboolean bv = p_ini_file_parameter_boolean(ini, "s", "a", FALSE);
-  VASSERT(bv == ((has_a && !C18_FAILED_SINCE(f0)) ? TRUE : FALSE), "boolean value or default");
-  VASSERT(vm_live == live0, "boolean getter leaves nothing allocated");
+  for (int attempt = 0; attempt < 2; attempt++) {
+    f0 = vm_failed;
+    pchar *str = p_ini_file_parameter_string(ini, "s", "a", "dflt");
+    int gfail = C18_FAILED_SINCE(f0);
+    if (gfail) VASSERT(str == NULL || c18_streq(str, "dflt"), "p_ini_file_parameter_string returns NULL or the default when a copy cannot be allocated");
+    else VASSERT(str != NULL && c18_streq(str, has_a ? "1" : "dflt"), "stored value, or the default for a key that was not stored (also when an earlier attempt failed)");
+    p_free(str);
+    VASSERT(vm_live == live0, "string getter: everything handed out was released");
+    if (!gfail) { if (attempt == 1) retried_ok = 1; break; }
+  }
+  for (int attempt = 0; attempt < 2; attempt++) {
+    f0 = vm_failed;
+    pint iv = p_ini_file_parameter_int(ini, "s", "a", 7);
+    int gfail = C18_FAILED_SINCE(f0);
+    VASSERT(iv == ((has_a && !gfail) ? 1 : 7), "integer value, or the default when the key is missing or the lookup copy cannot be allocated");
+    VASSERT(vm_live == live0, "integer getter leaves nothing allocated");
+    if (!gfail) { if (attempt == 1) retried_ok = 1; break; }
+  }
+  for (int attempt = 0; attempt < 2; attempt++) {
+    f0 = vm_failed;
+    pboolean bv = p_ini_file_parameter_boolean(ini, "s", "a", FALSE);
+    int gfail = C18_FAILED_SINCE(f0);
+    VASSERT(bv == ((has_a && !gfail) ? TRUE : FALSE), "boolean value or default");
+    VASSERT(vm_live == live0, "boolean getter leaves nothing allocated");
+    if (!gfail) { if (attempt == 1) retried_ok = 1; break; }
+  }
 #if INIFILE != 1
-  f0 = vm_failed; live0 = vm_live;
 #  ifdef KF_OPEN_C18_ini_list_node
   EXCLUDE_NTH(3); EXCLUDE_NTH(5);
 #  endif
 #  ifdef KF_DEMO_C18_ini_list_node
   DEMO_NTH(3);
 #  endif
-  nulls = 0;
-  PList *items = p_ini_file_parameter_list(ini, "s", "l");
-  int lfail = C18_FAILED_SINCE(f0);
-  int ni = free_strings(items, "1", "2", NULL, &nulls);
-  VASSERT(ni <= 2, "not more items than in the value");
-  if (!pfail && !lfail && !missing) VASSERT(ni == 2 && nulls == 0, "both list items delivered when no allocation failed");
+  for (int attempt = 0; attempt < 2; attempt++) {
+    f0 = vm_failed;
+    int nulls = 0;
+    PList *items = p_ini_file_parameter_list(ini, "s", "l");
+    int lfail = C18_FAILED_SINCE(f0);
+    int ni = free_strings(items, "1", "2", NULL, &nulls);
+    VASSERT(ni <= 2, "not more items than in the value");
+    if (!pfail && !lfail && !missing) VASSERT(ni == 2 && nulls == 0, "both list items delivered when no allocation failed (also when an earlier attempt failed)");
 #ifdef KF_DEMO_C18_ini_list_node
-  VKF(vm_live == live0, "list getter: everything handed out was released");
+    VKF(vm_live == live0, "list getter: everything handed out was released");
 #else
-  VASSERT(vm_live == live0, "list getter: everything handed out was released");
+    VASSERT(vm_live == live0, "list getter: everything handed out was released");
 #endif
+    if (!lfail) { if (attempt == 1) retried_ok = 1; break; }
+  }
 #endif
 
   p_ini_file_free(ini);
@@ -198,5 +222,10 @@ static void script(void) {
 #endif
 #ifdef INI_MISSING_CHOICE
   if (missing) VWITNESS("unreadable file");
+#endif
+#if !defined(KF_DEMO) && !defined(NOFAIL) && K_HI >= KMAX
+  if (retried_ok && !pfail) VWITNESS("a reader failed once and delivered the complete result when retried");
+#else
+  (void) retried_ok;
 #endif
 }
